@@ -73,6 +73,14 @@ static void * two_sleeper(void * a) {
   return (void *)(long)(third_ran ? 1 : 0);
 }
 
+static volatile long cs_elapsed; static volatile int cs_r;
+static void * cancelled_sleeper(void * a) {
+  (void)a; struct timespec rq = { 0, 3000 }, t0, t1;
+  myth_cancel(myth_self());                      /* the request stays pending until the thread tests for it */
+  mv_clock_read(&t0); cs_r = myth_nanosleep(&rq, 0); mv_clock_read(&t1);
+  cs_elapsed = ts_ns(&t1) - ts_ns(&t0);
+  return 0;
+}
 static void run(int tier, int prog) {
   build(); cur = &P[tier][prog];
   mv_start(cur->W);
@@ -87,7 +95,7 @@ static void run(int tier, int prog) {
     case 0: { struct timespec rq = { 0, 0 }; want_ns = 0; r = myth_nanosleep(&rq, 0); break; }
     case 1: { struct timespec rq = { 0, 3000 }; want_ns = 3000; r = myth_nanosleep(&rq, 0); break; }
     case 2: want_ns = 5000; r = myth_usleep(5); break;
-    case 4: { struct timespec rq = { 0, 3000 }; want_ns = 3000; myth_cancel(myth_self()); r = myth_nanosleep(&rq, 0); break; }
+    case 4: { want_ns = 3000; myth_thread_t c = myth_create(cancelled_sleeper, 0); myth_join(c, 0); r = cs_r; t0.tv_sec = 1000000L; t0.tv_nsec = 0; mv_clock_read(&t1); MV_CHECK(cs_elapsed >= want_ns, "a sleep of %ld ns in a thread with a pending cancellation request returned 0 after %ld ns", want_ns, cs_elapsed); break; }
     default: want_ns = 0; r = (int)myth_sleep(0); break;
     }
     mv_clock_read(&t1);
